@@ -83,7 +83,7 @@ m = dict(
     ],
     checks=checks,
     not_applicable=na,
-    notes='Generated by tools/gen_manifest.py from engine/props_d/*.py and claimed.txt. Known findings: known_findings.json (all entries fixed, none open). Seeded changes: seeded/. Design and results: DESIGN.md.',
+    notes='Generated by tools/gen_manifest.py from engine/props_d/*.py and claimed.txt. Known findings: known_findings.json (38 defects fixed; one open: C13 tbb-lowered-limit-transient). Seeded changes: seeded/. Design and results: DESIGN.md.',
 )
 json.dump(m, open(os.path.join(VERIF, 'MANIFEST.json'), 'w'), indent=1)
 print('claimed', [c['property_id'] for c in checks])
